@@ -30,8 +30,9 @@ func genC11(t *rapid.T) c11Case {
 			HashPoolMax: rapid.SampledFrom([]int{1, 2, 4, 8, 30, 200}).Draw(t, "poolMax")}
 		if rapid.IntRange(0, 5).Draw(t, "hot") == 0 {
 			o.Hot = true
-			o.HashPoolMax = 2
-			o.Kinds = []int{gen.KVal, gen.KVal, gen.KVal, gen.KPeeled, gen.KDel}
+			o.HashPoolMax = 1
+			o.Kinds = []int{gen.KVal, gen.KVal, gen.KVal, gen.KVal, gen.KVal, gen.KVal, gen.KPeeled, gen.KDel}
+			o.MaxRefs = 220
 		}
 		c.Hot = o.Hot
 		c.Tables = []gen.TableSpec{gen.DrawTable(t, o)}
